@@ -153,6 +153,8 @@ fn process_file_into(
 ) -> io::Result<()> {
     session.emit_rerun_directive(lalrpop_file);
     if session.force_build || needs_rebuild(lalrpop_file, rs_file)? {
+        #[cfg(lalrpop_verif)]
+        crate::verif::crash_point("after_check");
         log!(
             session,
             Informative,
@@ -166,7 +168,11 @@ fn process_file_into(
         if let Some(parent) = rs_file.parent() {
             fs::create_dir_all(parent)?;
         }
+        #[cfg(lalrpop_verif)]
+        crate::verif::crash_point("after_mkdirs");
         remove_old_file(rs_file)?;
+        #[cfg(lalrpop_verif)]
+        crate::verif::crash_point("after_remove");
 
         // Store the session and file-text in TLS -- this is not
         // intended to be used in this high-level code, but it gives
@@ -181,11 +187,23 @@ fn process_file_into(
         // file behind.
         {
             let grammar = parse_and_normalize_grammar(&session, &file_text)?;
+            #[cfg(lalrpop_verif)]
+            crate::verif::record_grammar(&grammar);
             let buffer = emit_recursive_ascent(&session, &grammar, report_file)?;
+            #[cfg(lalrpop_verif)]
+            crate::verif::crash_point("after_generate");
             let mut output_file = fs::File::create(rs_file)?;
+            #[cfg(lalrpop_verif)]
+            crate::verif::crash_point("after_create");
             writeln!(output_file, "{LALRPOP_VERSION_HEADER}")?;
+            #[cfg(lalrpop_verif)]
+            crate::verif::crash_point("after_ver");
             writeln!(output_file, "{}", hash_file(lalrpop_file)?)?;
+            #[cfg(lalrpop_verif)]
+            crate::verif::crash_point("after_hash");
             output_file.write_all(&buffer)?;
+            #[cfg(lalrpop_verif)]
+            crate::verif::crash_point("after_body");
         }
     }
     Ok(())
@@ -288,8 +306,12 @@ fn lalrpop_files<P: AsRef<Path>>(root_dir: P) -> io::Result<Vec<PathBuf>> {
 }
 
 fn parse_and_normalize_grammar(session: &Session, file_text: &FileText) -> io::Result<r::Grammar> {
+    #[cfg(lalrpop_verif)]
+    crate::verif::stage("parse");
     let grammar = parser::parse_grammar(file_text.text())
         .map_err(|error| report_parse_error(file_text, error, report_error))?;
+    #[cfg(lalrpop_verif)]
+    crate::verif::stage("normalize");
 
     match normalize::normalize(session, grammar) {
         Ok(grammar) => Ok(grammar),
@@ -491,6 +513,8 @@ fn emit_recursive_ascent(
         let _lr1_tls = lr1::Lr1Tls::install(grammar.terminals.clone());
 
         let lr1result = lr1::build_states(grammar, start_nt.clone());
+        #[cfg(lalrpop_verif)]
+        crate::verif::record_states(grammar, user_nt, start_nt, &lr1result);
         if session.emit_report {
             let mut output_report_file = fs::File::create(report_file)?;
             lr1::generate_report(&mut output_report_file, &lr1result)?;
